@@ -40,6 +40,7 @@ pub struct CaseWriter {
     pub nontrivial: u64,
     pub samples: Vec<String>,
     pub known_hits: Vec<(u64, String)>,
+    pub notes: std::collections::BTreeMap<u64, String>,
 }
 
 impl CaseWriter {
@@ -64,6 +65,7 @@ impl CaseWriter {
             nontrivial: 0,
             samples: vec![],
             known_hits: vec![],
+            notes: Default::default(),
         }
     }
     pub fn count(&mut self, key: &str) {
@@ -85,6 +87,10 @@ impl CaseWriter {
         }
         self.cases.push(term);
         self.cases.len() as u64
+    }
+    /// attach a human-readable note (e.g. the audit message) to a case; it ends up in cases.txt
+    pub fn note(&mut self, id: u64, note: String) {
+        self.notes.insert(id, note);
     }
     pub fn len(&self) -> usize {
         self.cases.len()
@@ -108,7 +114,10 @@ impl CaseWriter {
         // plain-text copy of every case, one per line, for replay files
         let mut all = String::new();
         for (i, c) in self.cases.iter().enumerate() {
-            writeln!(all, "{}\t{}", i + 1, c).unwrap();
+            match self.notes.get(&(i as u64 + 1)) {
+                Some(n) => writeln!(all, "{}\t{}  (* {} *)", i + 1, c, n.replace("*)", "* )").replace('\n', " ")).unwrap(),
+                None => writeln!(all, "{}\t{}", i + 1, c).unwrap(),
+            }
         }
         std::fs::write(self.dir.join("cases.txt"), all).unwrap();
         let meta = serde_json::json!({
